@@ -160,6 +160,25 @@ func PutVarint(b []byte, v uint64) []byte {
 	return append(b, byte(v))
 }
 
+// PutVarintLong appends an encoding of v that is extra bytes longer than the
+// shortest one (continuation bits and zero groups behind the value). The xz
+// format forbids such encodings; the structural mutator uses them to lengthen a
+// structure without changing a value.
+func PutVarintLong(b []byte, v uint64, extra int) []byte {
+	if extra <= 0 {
+		return PutVarint(b, v)
+	}
+	for v >= 0x80 {
+		b = append(b, byte(v)|0x80)
+		v >>= 7
+	}
+	b = append(b, byte(v)|0x80)
+	for i := 1; i < extra; i++ {
+		b = append(b, 0x80)
+	}
+	return append(b, 0)
+}
+
 // Parse parses and fully validates a .xz file. keepOps makes the LZMA traces
 // keep the operation list.
 func Parse(in []byte, keepOps bool) (*File, error) {
@@ -447,6 +466,8 @@ type BlockSpec struct {
 	// overrides used by the structural mutator (nil = truthful)
 	CompSizeOverride   *uint64
 	UncompSizeOverride *uint64
+	// FilterRaw, if set, replaces the three bytes of the LZMA2 filter flags
+	FilterRaw []byte
 }
 
 // BuildBlockHeader builds a block header.
@@ -468,7 +489,11 @@ func BuildBlockHeader(b BlockSpec) []byte {
 		}
 		h = PutVarint(h, v)
 	}
-	h = append(h, 0x21, 0x01, b.DictByte)
+	if b.FilterRaw != nil {
+		h = append(h, b.FilterRaw...)
+	} else {
+		h = append(h, 0x21, 0x01, b.DictByte)
+	}
 	for (len(h)+4)%4 != 0 {
 		h = append(h, 0)
 	}
@@ -500,11 +525,21 @@ func BuildIndex(recs []Record) []byte {
 
 // BuildIndexCount builds an index with an explicit record count field.
 func BuildIndexCount(recs []Record, count uint64) []byte {
+	return BuildIndexLong(recs, count, nil)
+}
+
+// BuildIndexLong is BuildIndexCount with over-long encodings: extra(i) gives the
+// number of surplus bytes of the i-th integer of the index (0 = record count,
+// 1, 2 = first record, ...).
+func BuildIndexLong(recs []Record, count uint64, extra func(i int) int) []byte {
+	if extra == nil {
+		extra = func(int) int { return 0 }
+	}
 	ix := []byte{0}
-	ix = PutVarint(ix, count)
-	for _, r := range recs {
-		ix = PutVarint(ix, r.Unpadded)
-		ix = PutVarint(ix, r.Uncompressed)
+	ix = PutVarintLong(ix, count, extra(0))
+	for i, r := range recs {
+		ix = PutVarintLong(ix, r.Unpadded, extra(1+2*i))
+		ix = PutVarintLong(ix, r.Uncompressed, extra(2+2*i))
 	}
 	for len(ix)%4 != 0 {
 		ix = append(ix, 0)
